@@ -230,6 +230,8 @@ CMD_TEXTS = [
 def _run_cmd_case(ctx, case) -> F.Outcome:
     if case[1] == "whitelist-lookalike":
         return _run_whitelist_lookalike(ctx, case)
+    if case[1] == "whitelist-lifecycle":
+        return _run_whitelist_lifecycle(ctx, case)
     _, name, text, mode = case
     day = H.DEFAULT_DAY
     out = F.Outcome()
@@ -344,6 +346,56 @@ def _run_whitelist_lookalike(ctx, case) -> F.Outcome:
     return out
 
 
+def _run_whitelist_lifecycle(ctx, case) -> F.Outcome:
+    """broken+whitelisted -> (still broken: accepted, flagged, no notes) -> fixed:
+    leaves the whitelist, all notes indexed -> broken again: refused."""
+    _, _, mode = case
+    day = H.DEFAULT_DAY
+    out = F.Outcome()
+    zd = Z.make_zdir({"w.zo": BROKEN, "good.zo": "# g\n\n- 240103#0C good\n"})
+    wlp = zd / ".zorg" / "error_file_whitelist.txt"
+    run = (lambda: Z.db_create(zd, day)) if mode == "create" else (lambda: Z.db_reindex(zd, day))
+    problems = []
+    try:
+        r = Z.db_create(zd, day, force=True)
+        if not Z.cli_ok(r) or wlp.read_text().split("\n") != ["w.zo"]:
+            raise H.HarnessError("lifecycle setup failed")
+        # 1. still broken, edited: accepted because whitelisted, flagged, no notes
+        (zd / "w.zo").write_text(BROKEN + "- 240104#0E one more\n")
+        r = run()
+        pg = IR.read_index(zd)["pages"].get("w.zo")
+        if not Z.cli_ok(r):
+            problems.append(("whitelisted-broken-page-refused", {"stderr": r.err[-300:]}))
+        elif pg is None or not pg["has_errors"] or pg["notes"]:
+            problems.append(("whitelisted-broken-page-not-indexed-as-flagged-and-empty", {"page": pg}))
+        elif wlp.read_text().split("\n") != ["w.zo"]:
+            problems.append(("whitelist-lost-a-still-broken-page", {"whitelist": wlp.read_text()}))
+        # 2. fixed: leaves the whitelist, every note indexed
+        (zd / "w.zo").write_text("# t\n\n- 240101#0A ok note\n- 240105#0F another\n")
+        r = run()
+        pg = IR.read_index(zd)["pages"].get("w.zo")
+        if not Z.cli_ok(r):
+            problems.append(("fixed-page-refused", {"stderr": r.err[-300:]}))
+        elif pg is None or pg["has_errors"] or len(pg["notes"]) != 2:
+            problems.append(("fixed-page-not-fully-indexed", {"page": pg}))
+        elif "w.zo" in wlp.read_text().split("\n"):
+            problems.append(("fixed-page-still-whitelisted", {"whitelist": wlp.read_text()}))
+        # 3. broken again, no longer whitelisted: refused
+        (zd / "w.zo").write_text(BROKEN)
+        r = run()
+        if Z.cli_ok(r):
+            problems.append(("page-broken-again-after-leaving-the-whitelist-accepted", {"whitelist": wlp.read_text()}))
+        out.obs = H.digest([p[0] for p in problems])
+        out.nontrivial = H.digest(case)
+        if problems:
+            out.ok = False
+            out.sig = "command:" + problems[0][0] + ":" + mode
+            out.detail = {"mode": mode, "problems": problems}
+    finally:
+        Z.drop(zd)
+    return out
+
+
 def _cases(ctx):
     quick = ctx.quick
     sigma = SIGMA_QUICK if quick else SIGMA_FULL
@@ -395,6 +447,8 @@ def _cases(ctx):
                               ("p10.zo", "p1.zo"), ("p1.zo", "p10.zo"), ("ab.zo", "b.zo"), ("a/b.zo", "a/b.zo.zo")):
         for mode in ("create", "reindex"):
             flat.append(["cmd", "whitelist-lookalike", wl_path, new_path, mode])
+    for mode in ("create", "reindex"):
+        flat.append(["cmd", "whitelist-lifecycle", mode])
     return flat, {"deviation0": len(SEEDS), "deviation1": n_dev1 - len(SEEDS), "deviation2": n_dev2,
                     "token_strings_and_digit_words": n_texts - n_dev1 - n_dev2,
                     "command_level": len(CMD_TEXTS) * 3 + 12, "sigma": len(sigma), "seeds_edited": len(seeds)}
